@@ -312,6 +312,8 @@ impl ClockCache {
                 .fetch_sub(removed_size, Ordering::Relaxed);
             #[cfg(test)]
             crate::test_hooks::pause_at(crate::test_hooks::AFTER_CACHE_BUCKET_CLEAR);
+            #[cfg(feoxdb_verif)]
+            crate::verif::sched_point("after_cache_bucket_clear", 0, 0);
         }
 
         self.clock_hand.store(0, Ordering::Relaxed);
